@@ -20,6 +20,9 @@ var constantOne = constant.MakeInt64(1)
 type closure struct {
 	lit *ast.FuncLit
 	fc  *FnCtx
+	// contract in force where the literal was evaluated (an inlined callee's own `inline` contract carries the loop
+	// invariants of a closure it returns)
+	contract *Contract
 }
 
 func (fc *FnCtx) evalCall(st *State, call *ast.CallExpr) []Val {
@@ -624,6 +627,11 @@ func (fc *FnCtx) callFuncValue(st *State, fun ast.Expr, call *ast.CallExpr) []Va
 	}
 	// a closure created in this function: run its body in place
 	if cl, ok := fc.eng.closures[fv.T]; ok && cl.fc == fc {
+		if cl.contract != nil && cl.contract != fc.contract {
+			saved := fc.contract
+			fc.contract = cl.contract
+			defer func() { fc.contract = saved }()
+		}
 		return fc.inlineFuncLit(st, cl.lit, args, call.Pos())
 	}
 	// contract attached to the variable / field / parameter the function value is read from
